@@ -373,6 +373,14 @@ impl<'a> LinkEnv<'a> {
     }
 }
 
+/// Source span recorded for every label (through the public query), sorted by name.
+fn label_sources_of(o: &ObjectFile) -> Vec<(String, Option<std::ops::Range<usize>>)> {
+    let Some(t) = o.symbol_table() else { return vec![] };
+    let mut v: Vec<(String, Option<std::ops::Range<usize>>)> = t.label_iter().map(|(n, _, _)| (n.to_string(), t.get_label_source(n))).collect();
+    v.sort_by(|a, b| a.0.cmp(&b.0));
+    v
+}
+
 fn ref_of(gens: &[GenFile], order: &[usize]) -> Result<RefObj, &'static str> {
     let refs: Vec<&RefObj> = order.iter().map(|i| &gens[*i].obj).collect();
     tgen::ref_link(&refs)
@@ -922,7 +930,16 @@ impl TCheck {
                     match back {
                         None => Err(Violation { class: "roundtrip-rejected".into(), step: *step, detail: format!("{what}: reading back what was just written returned None") }),
                         Some(b) => {
-                            if &b != o {
+                            // compared through the crate's PartialEq and, independently of it, through the
+                            // public accessors (a weakened PartialEq must not hide a difference)
+                            let proj_differs = image_of(&b) != image_of(o)
+                                || labels_of(&b) != labels_of(o)
+                                || relocs_of(&b) != relocs_of(o)
+                                || b.symbol_table().is_some() != o.symbol_table().is_some()
+                                || b.symbol_table().map(|t| t.line_iter().collect::<Vec<_>>()) != o.symbol_table().map(|t| t.line_iter().collect::<Vec<_>>())
+                                || b.symbol_table().and_then(|t| t.source_info()).map(|x| x.source().to_string()) != o.symbol_table().and_then(|t| t.source_info()).map(|x| x.source().to_string())
+                                || label_sources_of(&b) != label_sources_of(o);
+                            if &b != o || proj_differs {
                                 let why = if image_of(&b) != image_of(o) {
                                     "memory image"
                                 } else if labels_of(&b) != labels_of(o) {
